@@ -49,14 +49,30 @@ def run(tier, seed):
             if "ts" in st:
                 st["ts"] = st["ts"][:2]
         hl.append(h)
+    # plain widening with arbitrary (not joined) further values over 4-5 variables in shuffled declaration order
+    nplain = 24 if tier == "quick" else 150
+    hplain = [hist.plain_chain_history(ck.rng, 6000 + i, n=LONG_N, params=ck.rng.choice(c03.PARAMS)) for i in range(nplain)]
+    # (replayed on the environment-based domains and one representative of every other family: 110-step chains are slow
+    # on the disjunctive and term domains)
+    PLAIN_DOMS = [d for d in doms if d in ("intervals", "ric", "congruences", "constant", "sign", "sign_constant", "dis_intervals", "bool_int",
+                                           "aa_int", "term_int", "rgn_int", "ref_intervals", "split_dbm", "sparse_dbm", "split_oct", "lw_soct",
+                                           "sdbm_pt", "vp_int", "fixed_tvpi")]
     wdl = vlib.workdir("c05-long")
     hp, op_, tpl = [os.path.join(wdl, x) for x in ("h.ndjson", "o.ndjson", "traces.ndjson")]
     vlib.write_ndjson(hp, hl)
     rc, out = vlib.sh([os.path.join(vlib.BUILD, "bin", "dom_replay"), hp, op_] + doms, timeout=3000, env={"VH_STEP_TIMEOUT": 120})
     if rc != 0:
         raise vlib.Broken("dom_replay failed on long chains: " + out[-1500:])
+    hp2, op2 = os.path.join(wdl, "hplain.ndjson"), os.path.join(wdl, "oplain.ndjson")
+    vlib.write_ndjson(hp2, hplain)
+    rc, out = vlib.sh([os.path.join(vlib.BUILD, "bin", "dom_replay"), hp2, op2] + PLAIN_DOMS, timeout=3000, env={"VH_STEP_TIMEOUT": 120})
+    if rc != 0:
+        raise vlib.Broken("dom_replay failed on plain chains: " + out[-1500:])
+    recs_long = vlib.read_ndjson(op_) + vlib.read_ndjson(op2)
+    hl = hl + hplain
+    ck.cov["plain_widen_chains"] = {"chains": nplain, "steps": LONG_N, "domains": PLAIN_DOMS}
     bylong = {h["id"]: h for h in hl}
-    tl = hist.merge(hl, vlib.read_ndjson(op_))
+    tl = hist.merge(hl, recs_long)
     for t in tl:            # the stabilisation judgement only needs the answers of the inclusion tests
         t["cap"] = hist.chain_cap(bylong[t["id"]])
         for o in t["obs"]:
@@ -66,8 +82,13 @@ def run(tier, seed):
     ck.add_tlc(rl, "WidenChain/long")
     ck.cov["traces_validated_against_impl"] += sum(1 for t in tl for o in t["obs"] if o["err"] == 0)
     bylong = {h["id"]: h for h in hl}
-    for tid, dom, inc, total, cap in {tuple(x) for x in rl.tuples("CHAIN")}:
+    kf_plain = [k for k in vlib.known_findings("C05") if k["sig"].get("kind") == "plain-widen-chain"]
+    for tid, dom, inc, total, cap in sorted({tuple(x) for x in rl.tuples("CHAIN")}):
         h = dict(bylong[tid])
+        kf = [k for k in kf_plain if dom in k["sig"]["doms"] and any(st["op"] == "widen" for st in h["steps"])]
+        if kf:      # listed finding: plain chains (right operand not joined with the accumulator) on the lookahead-widening domain
+            ck.known(kf[0]["id"], {"domain": dom, "history": tid, "strict_increases": inc, "steps": total, "cap": cap})
+            continue
         ck.violation("domain %s: widening chain of history %d does not stabilise: %d strict increases in %d widening steps (cap %d = "
                      "constraints over the chain's variables x (1 + thresholds))" % (dom, tid, inc, total, cap),
                      {"domain": dom, "history": h})
